@@ -992,7 +992,14 @@ encode_mcu_gather(j_compress_ptr cinfo, JBLOCKROW *MCU_data)
 GLOBAL(void)
 jpeg_gen_optimal_table(j_compress_ptr cinfo, JHUFF_TBL *htbl, long freq[])
 {
-#define MAX_CLEN  32            /* assumed maximum initial code length */
+/* With the two smallest frequencies merged at each step, a symbol can only
+ * reach code length N if the total count is at least the (N + 2)th Fibonacci
+ * number.  The counts are longs that sum to less than 2^31 (and to less than
+ * 10^9 for any image the library can compress), which bounds the length by 44.
+ * (32 was not enough: 33 symbols with counts 1, 2, 3, 5, 8, ... already need
+ * 33 bits.)
+ */
+#define MAX_CLEN  64            /* maximum initial code length */
   UINT8 bits[MAX_CLEN + 1];     /* bits[k] = # of symbols with code length k */
   int bit_pos[MAX_CLEN + 1];    /* # of symbols with smaller code length */
   int codesize[257];            /* codesize[k] = code length of symbol k */
